@@ -59,6 +59,7 @@ func c13Mismatch(run *mon.Run, alg, how string, input []byte, got, want []byte, 
 
 // c13Core is the body run in every build configuration.
 func c13Core(run *mon.Run) {
+	c13KMACRelated(run)
 	var wg sync.WaitGroup
 	sem := make(chan struct{}, 16)
 	for _, a := range hashAlgs {
@@ -309,6 +310,100 @@ func c13Histories(run *mon.Run, r *rand.Rand, a hashAlg, n int) {
 
 func kmacRef(key, cust []byte, size int) func([]byte) []byte {
 	return func(m []byte) []byte { return ref.KMAC128(key, m, size, cust) }
+}
+
+// c13KMACRelated runs FIRST in the process (before any other KMAC instance exists, so that a bounded
+// table of constructor results still has room).
+func c13KMACRelated(run *mon.Run) {
+	// families of RELATED instances alive in one process: the same bytes split differently between key
+	// and customizer, equal key and customizer with different output sizes, keys/customizers that are
+	// prefixes of each other, and more instances than any bounded table would hold. Every instance must
+	// equal SP 800-185 for its own parameters when it is created, and still do so after all the others
+	// have been created and used.
+	{
+		r := run.Rand("kmac-related")
+		type inst struct {
+			h         hash.Hasher
+			key, cust []byte
+			size      int
+			family    string
+		}
+		var all []inst
+		mk := func(family string, key, cust []byte, size int) {
+			h, err := hash.NewKMAC_128(key, cust, size)
+			if err != nil {
+				run.Violate("C13:kmac:constructor-refuses-valid", fmt.Sprintf("%s: key %d bytes, customizer %d bytes, size %d refused: %v", family, len(key), len(cust), size, err), nil)
+				return
+			}
+			all = append(all, inst{h, append([]byte{}, key...), append([]byte{}, cust...), size, family})
+		}
+		judge := func(in inst, when string) bool {
+			msg := mon.RandBytes(r, []int{0, 5, 168, 200}[r.IntN(4)])
+			want := ref.KMAC128(in.key, msg, in.size, in.cust)
+			run.Eval(2)
+			got := in.h.ComputeHash(msg)
+			in.h.Reset()
+			_, _ = in.h.Write(msg)
+			got2 := in.h.SumHash()
+			in.h.Reset()
+			if !bytes.Equal(got, want) || !bytes.Equal(got2, want) {
+				run.Violate("C13:kmac:related-instances:"+in.family, fmt.Sprintf("KMAC128 instance (key %d bytes, customizer %d bytes, output %d) %s: ComputeHash %x, Write+SumHash %x, SP 800-185 gives %x", len(in.key), len(in.cust), in.size, when, trunc(got, 24), trunc(got2, 24), trunc(want, 24)),
+					map[string]any{"family": in.family, "key": mon.Hex(in.key), "customizer": mon.Hex(in.cust), "size": in.size, "msg": mon.Hex(msg), "when": when})
+				return false
+			}
+			return true
+		}
+		for rep := 0; rep < run.Pick(3, 40); rep++ {
+			all = all[:0]
+			S := mon.RandBytes(r, 40+r.IntN(24))
+			if rep%2 == 1 {
+				S = bytes.Repeat([]byte{byte(rep)}, 48) // all splits look alike
+			}
+			for i := 16; i <= len(S); i++ {
+				mk("same-concatenation", S[:i], S[i:], []int{32, 128}[i%2])
+			}
+			K := mon.RandBytes(r, 16+r.IntN(20))
+			C := mon.RandBytes(r, r.IntN(12))
+			for _, sz := range []int{0, 1, 32, 33, 128, 129, 32, 128, 256} {
+				mk("same-key-and-customizer", K, C, sz)
+			}
+			mk("prefix", append(append([]byte{}, K...), 0), C, 32)
+			mk("prefix", K, append([]byte{0}, C...), 32)
+			mk("prefix", K, append(append([]byte{}, C...), 0), 32)
+			mk("prefix", append([]byte{0}, K...), C, 32)
+			mk("prefix", K, nil, 32)
+			mk("prefix", K, []byte{}, 32)
+			mk("prefix", K, K, 32)
+			mk("prefix", K, []byte("KMAC"), 32)
+			for i := 0; i < run.Pick(300, 1200); i++ {
+				c := []byte(fmt.Sprintf("c%d", i))
+				if i%2 == 0 {
+					mk("many-customizers", K, c, 32)
+				} else {
+					mk("many-keys", append(append([]byte{}, K...), c...), C, 32)
+				}
+			}
+			ok := true
+			for i := 0; i < len(all) && ok; i++ {
+				ok = judge(all[i], "when judged after all related instances were created")
+			}
+			// once more in reverse order (the first pass may have warmed or evicted something)
+			for i := len(all) - 1; i >= 0 && ok; i-- {
+				if i%3 == 0 {
+					ok = judge(all[i], "on the second pass")
+				}
+			}
+			// and again right after creating a sibling with the same concatenation
+			for i := 16; i < 24 && ok; i++ {
+				h, err := hash.NewKMAC_128(S[:i], S[i:], 32)
+				if err == nil {
+					ok = judge(inst{h, S[:i], S[i:], 32, "same-concatenation"}, "created after its siblings")
+				}
+			}
+			run.Count("kmac.related-instances", len(all))
+		}
+		run.Shape("kmac|related-instances")
+	}
 }
 
 func c13KMAC(run *mon.Run) {
